@@ -352,6 +352,36 @@ def c07_events(version, n, seed):
     _, _, axes = t["cdf"]
     B = np.asarray(axes["beta_rad"])
     events = []
+    # ONE call with more events than any internal block size (2**16) and not a multiple of it: a sample of the events (both ends,
+    # around every multiple of 4096, random ones) is judged like any other event
+    big = 70001
+    cfg.simulation.tau_shower.etau_frac = 0.5
+    bbig = rng.uniform(np.radians(0.2), np.radians(42.0), big)
+    ebig = rng.uniform(6.0, 12.0, big)
+    pickbig = set(range(6)) | set(range(big - 12, big)) | set(int(i) for i in rng.integers(0, big, 60))
+    for kk in range(4096, big, 4096):
+        pickbig |= {kk - 1, kk}
+    pickbig = sorted(pickbig)
+    try:
+        with rngmod.constant(0.41):
+            tbB, tgB, tEB, EshB, _pB = taus(bbig.copy(), ebig.copy())
+        ubig = rng.uniform(1e-3, 1.0, big)
+        altB, LB = EAS(cfg).altDec(bbig.copy(), tbB.copy(), tgB.copy(), ubig.copy())
+        if not all(np.shape(x) == (big,) for x in (tbB, tgB, tEB, EshB, altB, LB)):
+            raise ValueError("result shapes differ from the batch length")
+        errB = None
+    except Exception as ex:
+        tbB = tgB = tEB = EshB = altB = LB = np.full(big, np.nan)
+        ubig = np.full(big, 0.5)
+        errB = repr(ex)[:200]
+    for i in pickbig:
+        events.append({"kind": "kin", "E": bits(tEB[i]), "f": bits(0.5), "g": bits(tgB[i]), "bt": bits(tbB[i]), "Esh": bits(EshB[i]),
+                       "_m": {"ver": version, "E": float(tEB[i]), "frac": 0.5, "gamma": float(tgB[i]), "beta_tau": float(tbB[i]), "batch": big,
+                              "index": i, "error": errB}})
+        events.append({"kind": "dec", "beta": bits(bbig[i]), "g": bits(tgB[i]), "bt": bits(tbB[i]), "u": bits(ubig[i]), "L": bits(LB[i]),
+                       "alt": bits(altB[i]), "R": bits(R),
+                       "_m": {"ver": version, "beta": bbig[i], "gamma": float(tgB[i]), "u": ubig[i], "L": float(LB[i]), "alt": float(altB[i]),
+                              "batch": big, "index": i}})
     for frac in (0.5, 1.0, 0.01, 1e-3):
         cfg.simulation.tau_shower.etau_frac = frac
         k = max(8, n // 4)
